@@ -77,6 +77,13 @@ func buildReplayRunnerOpt(lg *loadedGroup, work string, race bool) (*replayRunne
 		repl[filepath.Join(g.PkgDir, "zz_verif_"+filepath.Base(f))] = f
 	}
 	repl[filepath.Join(g.PkgDir, "zz_verif_rt.go")] = rt
+	if g.ExtraRT != "" {
+		x := filepath.Join(work, g.Name+"_rt_native_"+g.ExtraRT+".go")
+		if err := renderTemplate(filepath.Join(verifDir, "harness", "rt", "native_"+g.ExtraRT+".go.tmpl"), x, g.PkgName); err != nil {
+			return nil, err
+		}
+		repl[filepath.Join(g.PkgDir, "zz_verif_rt_"+g.ExtraRT+".go")] = x
+	}
 	repl[filepath.Join(g.PkgDir, "zz_verif_registry.go")] = reg
 	repl[filepath.Join(g.PkgDir, "zz_verif_replay_test.go")] = tst
 	ovb, _ := json.Marshal(map[string]interface{}{"Replace": repl})
@@ -180,6 +187,10 @@ func cmdReplay(path string) int {
 		fmt.Println("unknown group", rf.Group)
 		return 2
 	}
+	if g.Corpus {
+		gc := *g
+		g = &gc
+	}
 	workRoot := filepath.Join(verifDir, ".work")
 	os.MkdirAll(workRoot, 0o755)
 	work, _ := os.MkdirTemp(workRoot, "replay-")
@@ -211,4 +222,4 @@ func cmdReplay(path string) int {
 	return 0
 }
 
-func buildCorpus(g *Group, work string) error { return fmt.Errorf("corpus pipeline not built yet") }
+
